@@ -5,6 +5,8 @@ import (
 	"fmt"
 	"os"
 
+	"github.com/rs/zerolog"
+
 	"verif/harness/core"
 	"verif/harness/gossip"
 )
@@ -14,11 +16,14 @@ func main() {
 		fmt.Println("usage: vgossip <property-id> [--tier quick|thorough]")
 		os.Exit(2)
 	}
+	zerolog.SetGlobalLevel(zerolog.Disabled) // the repository code logs every handled message
 	c := core.NewCtx(os.Args[1], os.Args[2:])
 	code := core.ExitInconclusive
 	switch os.Args[1] {
 	case "C01":
 		code = gossip.CheckC01(c)
+	case "C03":
+		code = gossip.CheckC03(c)
 	default:
 		fmt.Println("INCONCLUSIVE: no check for", os.Args[1])
 	}
